@@ -7,10 +7,11 @@ CFG = dict(
           "C11_teardown_never_stuck + C11_no_defer_at_rest (the one lock-held-while-waiting state cannot deadlock); server (Model/Server.v): "
           "C11_server_held (Q: the forwarding read loop is held only by a registered stream whose handler context is live and whose queue is "
           "full), C11_server_returned (Q: a returned handler waits for the registry lock only behind ANOTHER live stream or a reset hand-off). "
-          "Both models are tied lock-step to the real code; the rig adds the mutex-deadlock watchdog.",
+          "End to end on Model/Sys.v: C11_sys_probe (Q: in every quiescent system state a unary call has returned or waits with a live context for a "
+          "reply that exists nowhere). Both models are tied lock-step to the real code; the rig adds the mutex-deadlock watchdog.",
     props="Props/C11.v",
     theorems=["C11_client_hold_live", "C11_probe", "C11_client_all_routed", "C11_teardown_never_stuck", "C11_no_defer_at_rest",
-              "C11_server_held", "C11_server_returned"],
+              "C11_server_held", "C11_server_returned", "C11_sys_probe"],
     imports=["Model.Client", "Check.ClientC", "Model.Protocol", "Check.CwC", "Check.C11c"],
     case_type="cwcase", find_bad_from="find_bad_from", go_tags="cw",
     rigs=[dict(test="TestC11", timeout_quick=600, timeout_thorough=2400)],
